@@ -1,8 +1,8 @@
 import AasVerif.Lemmas.InferBasic
-import AasVerif.Lemmas.EvalOps
+import AasVerif.Lemmas.EvalTyped
 /-!
 One lemma per expression form: if the inferrer accepts the form and the sub-expressions are
-`Good` (induction hypotheses), the form is `Good`.
+`Good` (induction hypotheses: a value of the inferred type, or `IndexError`), the form is `Good`.
 -/
 namespace AasVerif.Expr
 
@@ -31,35 +31,26 @@ theorem inst_of_class {D : Decls} {v : Val} {c : Text} {cd : ClassDecl} (h : Has
     exact ⟨_, _, _, rfl, h2, h3⟩
 
 theorem member_good {i : Expr} {n : Text} {τ : Ty} (inv : Inv key Γ F ρ)
-    (ih : ∀ ti, infer key Γ F i = .ok ti → Good Γ.decls (eval ρ i) ti)
+    (ih : ∀ ti, infer key Γ F i = .ok ti → Good Γ.decls (eval ρ i) ti) (hnf : τ.isFn = false)
     (h : infer key Γ F (.member i n) = .ok τ) : Good Γ.decls (eval ρ (.member i n)) τ := by
   simp only [infer] at h
   cases hi : infer key Γ F i with
   | err es => simp [hi, memberRes] at h
   | crash s => simp [hi, memberRes] at h
   | ok ti =>
-    have g := ih ti hi
     rw [hi] at h
-    cases he : eval ρ i with
-    | noneDeref => exact absurd he g.1
-    | typeError => exact ⟨by simp [eval, he], by simp [eval, he]⟩
-    | indexError => exact ⟨by simp [eval, he], by simp [eval, he]⟩
-    | otherError => exact ⟨by simp [eval, he], by simp [eval, he]⟩
-    | val v =>
-      have ag := g.2 v he
-      cases ti with
+    rcases ih ti hi with he | ⟨v, he, hv⟩
+    · have : eval ρ (.member i n) = .indexError := by simp [eval, he]
+      rw [this]; exact Good.index
+    · cases ti with
       | our c =>
-        have hv : HasTy Γ.decls v (.our c) := by
-          rcases ag with ag | ag
-          · simp [Ty.isLoose] at ag
-          · exact ag
         simp only [memberRes] at h
         cases hc : Γ.decls.findOur c with
         | none => simp [hc] at h
         | some d =>
           cases d with
           | enum _ => simp [hc] at h
-          | cprim _ => simp [hc] at h
+          | cprim _ _ _ => simp [hc] at h
           | cls cd =>
             obtain ⟨oid, d, fields, rfl, hsome, hty⟩ := inst_of_class hv hc
             simp only [hc] at h
@@ -72,10 +63,8 @@ theorem member_good {i : Expr} {n : Text} {τ : Ty} (inv : Inv key Γ F ρ)
               | none => simp [hl] at hs
               | some w =>
                 have hev : eval ρ (.member i n) = .val w := by simp [eval, he, hl]
-                refine ⟨by simp [hev], ?_⟩
-                intro w' hw'
-                rw [hev] at hw'; cases hw'
-                exact strip_agrees (Or.inr (hty n τ0 w hp hl)) (fun hk => fact_ne_none inv hk hev)
+                rw [hev]
+                exact Good.val (strip_hasTy (hty n τ0 w hp hl) (fun hk => fact_ne_none inv hk hev))
             | none =>
               simp only [hp] at h
               cases hm : assoc n cd.methods with
@@ -83,13 +72,8 @@ theorem member_good {i : Expr} {n : Text} {τ : Ty} (inv : Inv key Γ F ρ)
               | some ret =>
                 simp only [hm, Res.ok.injEq] at h
                 subst h
-                refine good_loose ?_ (by simp [Ty.isLoose])
-                cases hl : lookup n fields <;> simp [eval, he, hl]
+                simp [Ty.isFn] at hnf
       | enumType en =>
-        have hv : HasTy Γ.decls v (.enumType en) := by
-          rcases ag with ag | ag
-          · simp [Ty.isLoose] at ag
-          · exact ag
         cases hv with
         | enumCls hf =>
           simp only [memberRes, hf] at h
@@ -99,10 +83,8 @@ theorem member_good {i : Expr} {n : Text} {τ : Ty} (inv : Inv key Γ F ρ)
             subst h
             have hmem := by simpa using hcont
             have hev : eval ρ (.member i n) = .val (.enumLit en n) := by simp [eval, he, hmem]
-            refine ⟨by simp [hev], ?_⟩
-            intro w' hw'
-            rw [hev] at hw'; cases hw'
-            exact Or.inr (HasTy.enumLit hf hmem)
+            rw [hev]
+            exact Good.val (HasTy.enumLit hf hmem)
           · simp at h
       | prim _ => simp [memberRes] at h
       | verif _ _ => simp [memberRes] at h
@@ -115,10 +97,7 @@ theorem member_good {i : Expr} {n : Text} {τ : Ty} (inv : Inv key Γ F ρ)
 theorem strip_isFn {F : Facts κ} {k : κ} {τ : Ty} (h : τ.isFn = true) : strip F k τ = τ := by
   cases τ <;> simp_all [strip, Ty.isFn]
 
-theorem isFn_loose {τ : Ty} (h : τ.isFn = true) : τ.isLoose = true := by
-  cases τ <;> simp_all [Ty.isFn, Ty.isLoose]
-
-theorem name_good {x : Text} {τ : Ty} (inv : Inv key Γ F ρ)
+theorem name_good {x : Text} {τ : Ty} (inv : Inv key Γ F ρ) (hnf : τ.isFn = false)
     (h : infer key Γ F (.name x) = .ok τ) : Good Γ.decls (eval ρ (.name x)) τ := by
   simp only [infer, inferName] at h
   cases hf : Γ.find x with
@@ -127,22 +106,25 @@ theorem name_good {x : Text} {τ : Ty} (inv : Inv key Γ F ρ)
     simp only [hf, Res.ok.injEq] at h
     subst h
     rcases inv.conf x τ0 hf with hfn | ⟨v, hv, hty⟩
-    · rw [strip_isFn hfn]
-      refine good_loose ?_ (isFn_loose hfn)
-      cases hl : lookup x ρ.vars <;> simp [eval, hl]
+    · rw [strip_isFn hfn] at hnf
+      rw [hfn] at hnf; cases hnf
     · have hev : eval ρ (.name x) = .val v := by simp [eval, hv]
-      refine ⟨by simp [hev], ?_⟩
-      intro w hw
-      rw [hev] at hw; cases hw
-      exact strip_agrees (Or.inr hty) (fun hk => fact_ne_none inv hk hev)
+      rw [hev]
+      exact Good.val (strip_hasTy hty (fun hk => fact_ne_none inv hk hev))
 
 theorem const_good {c : Const} {τ : Ty} (h : infer key Γ F (.const c) = .ok τ) :
     Good Γ.decls (eval ρ (.const c)) τ := by
   simp only [infer, Res.ok.injEq] at h
   subst h
-  exact good_loose (by simp [eval]) (by cases c <;> simp [constTy, Ty.isLoose])
+  simp only [eval]
+  refine Good.val ?_
+  cases c
+  · exact HasTy.bool _
+  · exact HasTy.int _
+  · exact HasTy.float _
+  · exact HasTy.str _
 
-/-- unary forms whose result is `bool`: the operand must not be a none-dereference -/
+/-- unary forms whose result is `bool` -/
 theorem isNone_good {e : Expr} {τ : Ty}
     (ih : ∀ ti, infer key Γ F e = .ok ti → Good Γ.decls (eval ρ e) ti)
     (h : infer key Γ F (.isNone e) = .ok τ) : Good Γ.decls (eval ρ (.isNone e)) τ := by
@@ -151,15 +133,13 @@ theorem isNone_good {e : Expr} {τ : Ty}
   | err es => simp [hi] at h
   | crash s => simp [hi] at h
   | ok ti =>
-    have g := (ih ti hi).1
     rw [hi] at h
     have hτ : τ = .bool := by cases ti <;> simp_all
     subst hτ
-    refine good_loose ?_ (by simp [Ty.bool, Ty.isLoose])
-    cases he : eval ρ e with
-    | val v => cases v <;> simp [eval, he, Out.ofBool]
-    | noneDeref => exact absurd he g
-    | _ => simp [eval, he]
+    rcases ih ti hi with he | ⟨v, he, _⟩
+    · have : eval ρ (.isNone e) = .indexError := by simp [eval, he]
+      rw [this]; exact Good.index
+    · cases v <;> simp only [eval, he, Out.ofBool] <;> exact Good.ofBool _
 
 theorem isNotNone_good {e : Expr} {τ : Ty}
     (ih : ∀ ti, infer key Γ F e = .ok ti → Good Γ.decls (eval ρ e) ti)
@@ -169,15 +149,13 @@ theorem isNotNone_good {e : Expr} {τ : Ty}
   | err es => simp [hi] at h
   | crash s => simp [hi] at h
   | ok ti =>
-    have g := (ih ti hi).1
     rw [hi] at h
     have hτ : τ = .bool := by cases ti <;> simp_all
     subst hτ
-    refine good_loose ?_ (by simp [Ty.bool, Ty.isLoose])
-    cases he : eval ρ e with
-    | val v => cases v <;> simp [eval, he, Out.ofBool]
-    | noneDeref => exact absurd he g
-    | _ => simp [eval, he]
+    rcases ih ti hi with he | ⟨v, he, _⟩
+    · have : eval ρ (.isNotNone e) = .indexError := by simp [eval, he]
+      rw [this]; exact Good.index
+    · cases v <;> simp only [eval, he, Out.ofBool] <;> exact Good.ofBool _
 
 theorem not_good {e : Expr} {τ : Ty}
     (ih : ∀ ti, infer key Γ F e = .ok ti → Good Γ.decls (eval ρ e) ti)
@@ -187,17 +165,16 @@ theorem not_good {e : Expr} {τ : Ty}
   | err es => simp [hi] at h
   | crash s => simp [hi] at h
   | ok ti =>
-    have g := (ih ti hi).1
     rw [hi] at h
     have hτ : τ = .bool := by
       simp only at h
-      split at h <;> simp_all
+      repeat' split at h
+      all_goals simp_all
     subst hτ
-    refine good_loose ?_ (by simp [Ty.bool, Ty.isLoose])
-    cases he : eval ρ e with
-    | val v => simp [eval, he, Out.ofBool]
-    | noneDeref => exact absurd he g
-    | _ => simp [eval, he]
+    rcases ih ti hi with he | ⟨v, he, _⟩
+    · have : eval ρ (.not e) = .indexError := by simp [eval, he]
+      rw [this]; exact Good.index
+    · simp only [eval, he, Out.ofBool]; exact Good.ofBool _
 
 /-- a binary form: both operands evaluated left to right, then a value-level operation -/
 theorem cmp_good {l r : Expr} {op : Cmp} {τ : Ty} (inv : Inv key Γ F ρ)
@@ -213,20 +190,29 @@ theorem cmp_good {l r : Expr} {op : Cmp} {τ : Ty} (inv : Inv key Γ F ρ)
     | err es => simp [hl, hr] at h
     | crash s => simp [hl, hr] at h
     | ok tr =>
-      have gl := (ihl tl hl).1
-      have gr := (ihr tr hr).1
       simp only [hl, hr] at h
-      have hτ : τ = .bool := by (repeat' split at h) <;> simp_all
-      subst hτ
-      refine good_loose ?_ (by simp [Ty.bool, Ty.isLoose])
-      cases hel : eval ρ l with
-      | val lv =>
-        cases her : eval ρ r with
-        | val rv => simpa [eval, hel, her] using cmpVals_ne _ _ inv.safe.cmp _ _
-        | noneDeref => exact absurd her gr
-        | _ => simp [eval, hel, her]
-      | noneDeref => exact absurd hel gl
-      | _ => simp [eval, hel]
+      have hchk : (op.isOrdering && !orderable Γ.decls tl tr) = false ∧ τ = .bool := by
+        by_cases h1 : ((if tl.isOpt then [Err.leftOptional] else []) ++ (if tr.isOpt then [Err.rightOptional] else [])) ≠ []
+        · simp [h1] at h
+        · by_cases h2 : (op.isOrdering && !orderable Γ.decls tl tr) = true
+          · simp [h1, h2] at h
+          · simp [h1, h2] at h
+            exact ⟨by simpa using h2, h.symm⟩
+      obtain ⟨hchk, rfl⟩ := hchk
+      rcases ihl tl hl with hel | ⟨lv, hel, hlv⟩
+      · have : eval ρ (.cmp l op r) = .indexError := by simp [eval, hel]
+        rw [this]; exact Good.index
+      · rcases ihr tr hr with her | ⟨rv, her, hrv⟩
+        · have : eval ρ (.cmp l op r) = .indexError := by simp [eval, hel, her]
+          rw [this]; exact Good.index
+        · obtain ⟨b, hb⟩ := cmpVals_typed inv.ok hlv hrv hchk
+          have : eval ρ (.cmp l op r) = .val (.bool b) := by simp [eval, hel, her, hb]
+          rw [this]; exact Good.ofBool b
+
+theorem isInCheck_bool {D : Decls} {mt ct τ : Ty} (h : isInCheck D mt ct = .ok τ) : τ = .bool := by
+  unfold isInCheck at h
+  repeat' split at h
+  all_goals first | (cases h; done) | (simp only [Res.ok.injEq] at h; exact h.symm)
 
 theorem isIn_good {m c : Expr} {τ : Ty} (inv : Inv key Γ F ρ)
     (ihl : ∀ ti, infer key Γ F m = .ok ti → Good Γ.decls (eval ρ m) ti)
@@ -241,28 +227,25 @@ theorem isIn_good {m c : Expr} {τ : Ty} (inv : Inv key Γ F ρ)
     | err es => simp [hl, hr] at h
     | crash s => simp [hl, hr] at h
     | ok tr =>
-      have gl := (ihl tl hl).1
-      have gr := (ihr tr hr).1
       simp only [hl, hr] at h
-      have hτ : τ = .bool := by (repeat' split at h) <;> simp_all
+      have hchk : isInCheck Γ.decls tl tr = .ok τ := by
+        by_cases h1 : ((if tl.isOpt then [Err.isInMemberOptional] else []) ++ (if tr.isOpt then [Err.containerOptional] else [])) ≠ []
+        · simp [h1] at h
+        · simpa [h1] using h
+      have hτ := isInCheck_bool hchk
       subst hτ
-      refine good_loose ?_ (by simp [Ty.bool, Ty.isLoose])
-      cases hel : eval ρ m with
-      | val lv =>
-        cases her : eval ρ c with
-        | val rv => simpa [eval, hel, her] using isInVals_ne _ _ _
-        | noneDeref => exact absurd her gr
-        | _ => simp [eval, hel, her]
-      | noneDeref => exact absurd hel gl
-      | _ => simp [eval, hel]
-
-theorem arithTy_loose {a b τ : Ty} (h : arithTy a b = .ok τ) : τ.isLoose = true := by
-  unfold arithTy at h
-  split at h <;> simp_all [Ty.isLoose]
-  all_goals (subst_vars; rfl)
+      rcases ihl tl hl with hel | ⟨lv, hel, hlv⟩
+      · have : eval ρ (.isIn m c) = .indexError := by simp [eval, hel]
+        rw [this]; exact Good.index
+      · rcases ihr tr hr with her | ⟨rv, her, hrv⟩
+        · have : eval ρ (.isIn m c) = .indexError := by simp [eval, hel, her]
+          rw [this]; exact Good.index
+        · obtain ⟨b, hb⟩ := isInVals_typed ρ.fops hlv hrv hchk
+          have : eval ρ (.isIn m c) = .val (.bool b) := by simp [eval, hel, her, hb]
+          rw [this]; exact Good.ofBool b
 
 theorem arithRes_ok {rl rr : Res Ty} {τ : Ty} (h : arithRes rl rr = .ok τ) :
-    (∃ lt, rl = .ok lt) ∧ (∃ rt, rr = .ok rt) ∧ τ.isLoose = true := by
+    ∃ lt rt, rl = .ok lt ∧ rr = .ok rt ∧ arithTy lt rt = .ok τ := by
   cases rl with
   | err es => simp [arithRes] at h
   | crash s => simp [arithRes] at h
@@ -271,59 +254,42 @@ theorem arithRes_ok {rl rr : Res Ty} {τ : Ty} (h : arithRes rl rr = .ok τ) :
     | err es => simp [arithRes] at h
     | crash s => simp [arithRes] at h
     | ok rt =>
-      refine ⟨⟨lt, rfl⟩, ⟨rt, rfl⟩, ?_⟩
+      refine ⟨lt, rt, rfl, rfl, ?_⟩
       simp only [arithRes] at h
       repeat' split at h
-      all_goals first | (simp at h; done) | exact arithTy_loose h
+      all_goals first | (cases h; done) | exact h
 
 theorem add_good {l r : Expr} {τ : Ty} (inv : Inv key Γ F ρ)
     (ihl : ∀ ti, infer key Γ F l = .ok ti → Good Γ.decls (eval ρ l) ti)
     (ihr : ∀ ti, infer key Γ F r = .ok ti → Good Γ.decls (eval ρ r) ti)
     (h : infer key Γ F (.add l r) = .ok τ) : Good Γ.decls (eval ρ (.add l r)) τ := by
   simp only [infer] at h
-  obtain ⟨⟨tl, hl⟩, ⟨tr, hr⟩, hloose⟩ := arithRes_ok h
-  have gl := (ihl tl hl).1
-  have gr := (ihr tr hr).1
-  refine good_loose ?_ hloose
-  cases hel : eval ρ l with
-  | val lv =>
-    cases her : eval ρ r with
-    | val rv => simpa [eval, hel, her] using arithVals_ne _ _ inv.safe.arith _ _
-    | noneDeref => exact absurd her gr
-    | _ => simp [eval, hel, her]
-  | noneDeref => exact absurd hel gl
-  | _ => simp [eval, hel]
+  obtain ⟨tl, tr, hl, hr, hty⟩ := arithRes_ok h
+  rcases ihl tl hl with hel | ⟨lv, hel, hlv⟩
+  · have : eval ρ (.add l r) = .indexError := by simp [eval, hel]
+    rw [this]; exact Good.index
+  · rcases ihr tr hr with her | ⟨rv, her, hrv⟩
+    · have : eval ρ (.add l r) = .indexError := by simp [eval, hel, her]
+      rw [this]; exact Good.index
+    · obtain ⟨v, hv, hvt⟩ := arithVals_typed inv.ok true hlv hrv hty
+      have : eval ρ (.add l r) = .val v := by simp [eval, hel, her, hv]
+      rw [this]; exact Good.val hvt
 
 theorem sub_good {l r : Expr} {τ : Ty} (inv : Inv key Γ F ρ)
     (ihl : ∀ ti, infer key Γ F l = .ok ti → Good Γ.decls (eval ρ l) ti)
     (ihr : ∀ ti, infer key Γ F r = .ok ti → Good Γ.decls (eval ρ r) ti)
     (h : infer key Γ F (.sub l r) = .ok τ) : Good Γ.decls (eval ρ (.sub l r)) τ := by
   simp only [infer] at h
-  obtain ⟨⟨tl, hl⟩, ⟨tr, hr⟩, hloose⟩ := arithRes_ok h
-  have gl := (ihl tl hl).1
-  have gr := (ihr tr hr).1
-  refine good_loose ?_ hloose
-  cases hel : eval ρ l with
-  | val lv =>
-    cases her : eval ρ r with
-    | val rv => simpa [eval, hel, her] using arithVals_ne _ _ inv.safe.arith _ _
-    | noneDeref => exact absurd her gr
-    | _ => simp [eval, hel, her]
-  | noneDeref => exact absurd hel gl
-  | _ => simp [eval, hel]
-
-theorem indexVals_list_mem {l : List Val} {i x : Val} (h : indexVals (.list l) i = .val x) : x ∈ l := by
-  unfold indexVals at h
-  simp only [] at h
-  repeat' split at h
-  all_goals (try (simp at h; done))
-  all_goals (repeat' split at h)
-  all_goals (try (simp at h; done))
-  all_goals
-    rename_i hget
-    simp only [id, Out.val.injEq] at h
-    subst h
-    exact List.mem_of_getElem? hget
+  obtain ⟨tl, tr, hl, hr, hty⟩ := arithRes_ok h
+  rcases ihl tl hl with hel | ⟨lv, hel, hlv⟩
+  · have : eval ρ (.sub l r) = .indexError := by simp [eval, hel]
+    rw [this]; exact Good.index
+  · rcases ihr tr hr with her | ⟨rv, her, hrv⟩
+    · have : eval ρ (.sub l r) = .indexError := by simp [eval, hel, her]
+      rw [this]; exact Good.index
+    · obtain ⟨v, hv, hvt⟩ := arithVals_typed inv.ok false hlv hrv hty
+      have : eval ρ (.sub l r) = .val v := by simp [eval, hel, her, hv]
+      rw [this]; exact Good.val hvt
 
 theorem index_good {c i : Expr} {τ : Ty}
     (ihl : ∀ ti, infer key Γ F c = .ok ti → Good Γ.decls (eval ρ c) ti)
@@ -338,27 +304,28 @@ theorem index_good {c i : Expr} {τ : Ty}
     | err es => simp [hl, hr] at h
     | crash s => simp [hl, hr] at h
     | ok tr =>
-      have gl := ihl tl hl
-      have gr := (ihr tr hr).1
       simp only [hl, hr] at h
-      have hτ : tl = .list τ := by (repeat' split at h) <;> simp_all
-      subst hτ
-      cases hel : eval ρ c with
-      | val lv =>
-        cases her : eval ρ i with
-        | val rv =>
-          have hev : eval ρ (.index c i) = indexVals lv rv := by simp [eval, hel, her]
-          refine ⟨by rw [hev]; exact indexVals_ne _ _, ?_⟩
-          intro x hx
-          rw [hev] at hx
-          rcases gl.2 lv hel with hlo | hty
-          · simp [Ty.isLoose] at hlo
-          · cases hty with
-            | list hall => exact Or.inr (hall x (indexVals_list_mem hx))
-        | noneDeref => exact absurd her gr
-        | _ => exact ⟨by simp [eval, hel, her], by simp [eval, hel, her]⟩
-      | noneDeref => exact absurd hel gl.1
-      | _ => exact ⟨by simp [eval, hel], by simp [eval, hel]⟩
+      have hτ : tl = .list τ ∧ tr.isIntLike = true := by
+        repeat' split at h
+        all_goals first | (cases h; done) | skip
+        all_goals simp_all
+      obtain ⟨rfl, hint⟩ := hτ
+      rcases ihl _ hl with hel | ⟨lv, hel, hlv⟩
+      · have : eval ρ (.index c i) = .indexError := by simp [eval, hel]
+        rw [this]; exact Good.index
+      · rcases ihr tr hr with her | ⟨rv, her, hrv⟩
+        · have : eval ρ (.index c i) = .indexError := by simp [eval, hel, her]
+          rw [this]; exact Good.index
+        · have hev : eval ρ (.index c i) = indexVals lv rv := by simp [eval, hel, her]
+          rw [hev]
+          exact indexVals_typed hlv hrv hint
+
+/-- a good outcome of a boolean type is a `bool` or `IndexError` -/
+theorem Good.boolOrIndex {D : Decls} {o : Out} {τ : Ty} (h : Good D o τ) (hb : D.isBool τ = true) : BoolOrIndex o := by
+  rcases h with rfl | ⟨v, rfl, hv⟩
+  · exact Or.inl rfl
+  · obtain ⟨b, rfl⟩ := isBool_inv hv hb
+    exact Or.inr ⟨b, rfl⟩
 
 theorem impl_good {a c : Expr} {τ : Ty} (hk : KeySound key) (inv : Inv key Γ F ρ)
     (iha : ∀ ti, infer key Γ F a = .ok ti → Good Γ.decls (eval ρ a) ti)
@@ -370,89 +337,117 @@ theorem impl_good {a c : Expr} {τ : Ty} (hk : KeySound key) (inv : Inv key Γ F
   | err es => simp [ha] at h
   | crash s => simp [ha] at h
   | ok ta =>
-    have ga := (iha ta ha).1
     simp only [ha] at h
     cases hc : infer key Γ (implFacts key F a) c with
     | err es => simp [hc] at h
     | crash s => simp [hc] at h
     | ok tc =>
       simp only [hc] at h
-      have hτ : τ = .bool := by (repeat' split at h) <;> simp_all
-      subst hτ
-      refine good_loose ?_ (by simp [Ty.bool, Ty.isLoose])
-      cases hea : eval ρ a with
-      | val av =>
-        by_cases ht : av.truthy ρ.fops = true
-        · have := (ihc tc (inv.implFacts hk hea ht ha) hc).1
-          simpa [eval, hea, ht] using this
-        · simp [eval, hea, ht, Out.ofBool]
-      | noneDeref => exact absurd hea ga
-      | _ => simp [eval, hea]
+      have hb : Γ.decls.isBool ta = true ∧ Γ.decls.isBool tc = true ∧ τ = .bool := by
+        by_cases h1 : ta.isOpt = true
+        · simp [h1] at h
+        · by_cases h2 : Γ.decls.isBool ta = true
+          · by_cases h3 : Γ.decls.isBool tc = true
+            · simp [h1, h2, h3] at h
+              exact ⟨h2, h3, h.symm⟩
+            · simp [h1, h2, h3] at h
+          · simp [h1, h2] at h
+      obtain ⟨hba, hbc, rfl⟩ := hb
+      rcases iha ta ha with hea | ⟨av, hea, hav⟩
+      · have : eval ρ (.impl a c) = .indexError := by simp [eval, hea]
+        rw [this]; exact Good.index
+      · obtain ⟨b, rfl⟩ := isBool_inv hav hba
+        cases b with
+        | false =>
+          have : eval ρ (.impl a c) = .val (.bool true) := by simp [eval, hea, Val.truthy, Out.ofBool]
+          rw [this]; exact Good.ofBool _
+        | true =>
+          have hev : eval ρ (.impl a c) = eval ρ c := by simp [eval, hea, Val.truthy]
+          rw [hev]
+          have := ihc tc (inv.implFacts hk hea (by simp [Val.truthy]) ha) hc
+          exact Good.of_boolOrIndex (this.boolOrIndex hbc)
 
-theorem and_cons_ne {e : Expr} {es : List Expr} (hk : KeySound key) (inv : Inv key Γ F ρ)
+theorem and_cons_good {e : Expr} {es : List Expr} (hk : KeySound key) (inv : Inv key Γ F ρ)
     (ihe : ∀ ti, infer key Γ F e = .ok ti → Good Γ.decls (eval ρ e) ti)
-    (ihes : Inv key Γ (andFact key F e) ρ → inferAnd key Γ (andFact key F e) es = .ok () → evalAnd ρ es ≠ .noneDeref)
-    (h : inferAnd key Γ F (e :: es) = .ok ()) : evalAnd ρ (e :: es) ≠ .noneDeref := by
+    (ihes : es ≠ [] → Inv key Γ (andFact key F e) ρ → inferAnd key Γ (andFact key F e) es = .ok () →
+      BoolOrIndex (evalAnd ρ es))
+    (h : inferAnd key Γ F (e :: es) = .ok ()) : BoolOrIndex (evalAnd ρ (e :: es)) := by
   simp only [inferAnd] at h
   cases he : infer key Γ F e with
   | err xs => simp [he] at h
   | crash s => simp [he] at h
   | ok te =>
-    have ge := (ihe te he).1
     simp only [he] at h
     cases hes : inferAnd key Γ (andFact key F e) es with
     | err xs => simp [hes] at h
     | crash s => simp [hes] at h
     | ok u =>
+      simp only [hes] at h
+      have hb : Γ.decls.isBool te = true := by
+        by_cases h1 : te.isOpt = true
+        · simp [h1] at h
+        · by_cases h2 : Γ.decls.isBool te = true
+          · exact h2
+          · simp [h1, h2] at h
+      have ge := (ihe te he).boolOrIndex hb
       cases es with
       | nil => simpa [evalAnd] using ge
       | cons e2 es2 =>
         simp only [evalAnd]
-        cases hev : eval ρ e with
-        | val v =>
-          by_cases ht : v.truthy ρ.fops = true
-          · simpa [ht] using ihes (inv.andFact hk hev ht ⟨F, te, he⟩) hes
-          · simp [ht]
-        | noneDeref => exact absurd hev ge
-        | _ => simp
+        rcases ge with hev | ⟨b, hev⟩
+        · rw [hev]; exact Or.inl rfl
+        · rw [hev]
+          cases b with
+          | false => simp only [Val.truthy]; exact Or.inr ⟨false, rfl⟩
+          | true =>
+            simp only [Val.truthy, if_true]
+            exact ihes (by simp) (inv.andFact hk hev (by simp [Val.truthy]) ⟨F, te, he⟩) hes
 
-theorem or_cons_ne {e : Expr} {es : List Expr} (hk : KeySound key) (inv : Inv key Γ F ρ)
+theorem or_cons_good {e : Expr} {es : List Expr} (hk : KeySound key) (inv : Inv key Γ F ρ)
     (ihe : ∀ ti, infer key Γ F e = .ok ti → Good Γ.decls (eval ρ e) ti)
-    (ihes : Inv key Γ (orFact key F e) ρ → inferOr key Γ (orFact key F e) es = .ok () → evalOr ρ es ≠ .noneDeref)
-    (h : inferOr key Γ F (e :: es) = .ok ()) : evalOr ρ (e :: es) ≠ .noneDeref := by
+    (ihes : es ≠ [] → Inv key Γ (orFact key F e) ρ → inferOr key Γ (orFact key F e) es = .ok () →
+      BoolOrIndex (evalOr ρ es))
+    (h : inferOr key Γ F (e :: es) = .ok ()) : BoolOrIndex (evalOr ρ (e :: es)) := by
   simp only [inferOr] at h
   cases he : infer key Γ F e with
   | err xs => simp [he] at h
   | crash s => simp [he] at h
   | ok te =>
-    have ge := (ihe te he).1
     simp only [he] at h
     cases hes : inferOr key Γ (orFact key F e) es with
     | err xs => simp [hes] at h
     | crash s => simp [hes] at h
     | ok u =>
+      simp only [hes] at h
+      have hb : Γ.decls.isBool te = true := by
+        by_cases h1 : te.isOpt = true
+        · simp [h1] at h
+        · by_cases h2 : Γ.decls.isBool te = true
+          · exact h2
+          · simp [h1, h2] at h
+      have ge := (ihe te he).boolOrIndex hb
       cases es with
       | nil => simpa [evalOr] using ge
       | cons e2 es2 =>
         simp only [evalOr]
-        cases hev : eval ρ e with
-        | val v =>
-          by_cases ht : v.truthy ρ.fops = true
-          · simp [ht]
-          · have hf : v.truthy ρ.fops = false := by simpa using ht
-            simpa [ht] using ihes (inv.orFact hk hev hf ⟨F, te, he⟩) hes
-        | noneDeref => exact absurd hev ge
-        | _ => simp
+        rcases ge with hev | ⟨b, hev⟩
+        · rw [hev]; exact Or.inl rfl
+        · rw [hev]
+          cases b with
+          | true => simp only [Val.truthy, if_true]; exact Or.inr ⟨true, rfl⟩
+          | false =>
+            simp only [Val.truthy]
+            exact ihes (by simp) (inv.orFact hk hev (by simp [Val.truthy]) ⟨F, te, he⟩) hes
 
-/-- the outcome of an argument list is not a none-dereference -/
-def ArgsSafe : Args → Prop
-  | .ok _ => True
-  | .err o => o ≠ .noneDeref
+/-- the outcome of an argument list: values of the inferred types, or `IndexError` -/
+def ArgsGood (D : Decls) (ts : List Ty) : Args → Prop
+  | .ok vs => ArgsHave D vs ts
+  | .err o => o = .indexError
 
-theorem args_cons_safe {e : Expr} {es : List Expr}
+theorem args_cons_good {e : Expr} {es : List Expr} {ts : List Ty}
     (ihe : ∀ ti, infer key Γ F e = .ok ti → Good Γ.decls (eval ρ e) ti)
-    (ihes : inferArgs key Γ F es = .ok () → ArgsSafe (evalArgs ρ es))
-    (h : inferArgs key Γ F (e :: es) = .ok ()) : ArgsSafe (evalArgs ρ (e :: es)) := by
+    (ihes : ∀ ts', inferArgs key Γ F es = .ok ts' → ArgsGood Γ.decls ts' (evalArgs ρ es))
+    (h : inferArgs key Γ F (e :: es) = .ok ts) : ArgsGood Γ.decls ts (evalArgs ρ (e :: es)) := by
   simp only [inferArgs] at h
   cases he : infer key Γ F e with
   | crash s => simp [he] at h
@@ -460,31 +455,41 @@ theorem args_cons_safe {e : Expr} {es : List Expr}
     simp only [he] at h
     cases hes : inferArgs key Γ F es <;> simp [hes] at h
   | ok te =>
-    have ge := (ihe te he).1
     simp only [he] at h
-    have gs := ihes h
-    simp only [evalArgs]
-    cases hev : eval ρ e with
-    | val v =>
-      simp only
-      cases hr : evalArgs ρ es with
-      | ok vs => simp [ArgsSafe]
-      | err o => simp only [hr] at gs; simpa [ArgsSafe] using gs
-    | noneDeref => exact absurd hev ge
-    | _ => simp [ArgsSafe]
+    cases hes : inferArgs key Γ F es with
+    | crash s => simp [hes] at h
+    | err xs => simp [hes] at h
+    | ok ts' =>
+      simp only [hes, Res.ok.injEq] at h
+      subst h
+      have gs := ihes ts' hes
+      simp only [evalArgs]
+      rcases ihe te he with hev | ⟨v, hev, hv⟩
+      · rw [hev]; rfl
+      · rw [hev]
+        simp only
+        cases hr : evalArgs ρ es with
+        | ok vs =>
+          rw [hr] at gs
+          exact ArgsHave.cons hv gs
+        | err o =>
+          rw [hr] at gs
+          exact gs
 
-theorem parts_lit_ne {s : Text} {ps : List JPart} (ih : evalParts ρ ps ≠ .noneDeref) :
-    evalParts ρ (.lit s :: ps) ≠ .noneDeref := by
+/-- an f-string outcome: a `str` or `IndexError` -/
+def StrOrIndex (o : Out) : Prop := o = .indexError ∨ ∃ s, o = .val (.str s)
+
+theorem parts_lit_good {s : Text} {ps : List JPart} (ih : StrOrIndex (evalParts ρ ps)) :
+    StrOrIndex (evalParts ρ (.lit s :: ps)) := by
   simp only [evalParts]
-  cases h : evalParts ρ ps with
-  | val v => cases v <;> simp
-  | noneDeref => exact absurd h ih
-  | _ => simp
+  rcases ih with h | ⟨r, h⟩
+  · rw [h]; exact Or.inl rfl
+  · rw [h]; exact Or.inr ⟨_, rfl⟩
 
-theorem parts_fv_ne {e : Expr} {ps : List JPart} (inv : Inv key Γ F ρ)
+theorem parts_fv_good {e : Expr} {ps : List JPart} (inv : Inv key Γ F ρ)
     (ihe : ∀ ti, infer key Γ F e = .ok ti → Good Γ.decls (eval ρ e) ti)
-    (ihps : inferParts key Γ F ps = .ok () → evalParts ρ ps ≠ .noneDeref)
-    (h : inferParts key Γ F (.fv e :: ps) = .ok ()) : evalParts ρ (.fv e :: ps) ≠ .noneDeref := by
+    (ihps : inferParts key Γ F ps = .ok () → StrOrIndex (evalParts ρ ps))
+    (h : inferParts key Γ F (.fv e :: ps) = .ok ()) : StrOrIndex (evalParts ρ (.fv e :: ps)) := by
   simp only [inferParts] at h
   cases he : infer key Γ F e with
   | crash s => simp [he] at h
@@ -492,7 +497,6 @@ theorem parts_fv_ne {e : Expr} {ps : List JPart} (inv : Inv key Γ F ρ)
     simp only [he] at h
     cases hes : inferParts key Γ F ps <;> simp [hes] at h
   | ok te =>
-    have ge := (ihe te he).1
     simp only [he] at h
     have hps : inferParts key Γ F ps = .ok () := by
       split at h
@@ -500,36 +504,14 @@ theorem parts_fv_ne {e : Expr} {ps : List JPart} (inv : Inv key Γ F ρ)
       · exact h
     have gs := ihps hps
     simp only [evalParts]
-    cases hev : eval ρ e with
-    | val v =>
-      simp only
-      have hf := fmtVal_ne ρ inv.safe.fmt v
-      cases hfm : fmtVal ρ v with
-      | val w =>
-        cases w <;> simp
-        cases hr : evalParts ρ ps with
-        | val r => cases r <;> simp
-        | noneDeref => exact absurd hr gs
-        | _ => simp
-      | noneDeref => exact absurd hfm hf
-      | _ => simp
-    | noneDeref => exact absurd hev ge
-    | _ => simp
-
-theorem evalArgs_err_not_val (ρ : Env) : ∀ (args : List Expr) (o : Out), evalArgs ρ args = .err o → ∀ v, o ≠ .val v
-  | [], o, h => by simp [evalArgs] at h
-  | e :: es, o, h => by
-    simp only [evalArgs] at h
-    cases he : eval ρ e with
-    | val v =>
-      simp only [he] at h
-      cases hr : evalArgs ρ es with
-      | ok vs => simp [hr] at h
-      | err o' =>
-        simp only [hr, Args.err.injEq] at h
-        subst h
-        exact evalArgs_err_not_val ρ es _ hr
-    | _ => simp [he] at h; subst h; simp
+    rcases ihe te he with hev | ⟨v, hev, _⟩
+    · rw [hev]; exact Or.inl rfl
+    · rw [hev]
+      obtain ⟨t, ht⟩ := fmtVal_typed inv.ok v
+      simp only [ht]
+      rcases gs with hr | ⟨r, hr⟩
+      · rw [hr]; exact Or.inl rfl
+      · rw [hr]; exact Or.inr ⟨_, rfl⟩
 
 theorem isValTy_strip_not_fn {F : Facts κ} {k : κ} {τ : Ty} (h : τ.isValTy = true) : (strip F k τ).isFn = false := by
   cases τ with
@@ -540,9 +522,17 @@ theorem isValTy_strip_not_fn {F : Facts κ} {k : κ} {τ : Ty} (h : τ.isValTy =
     · simp [Ty.isFn]
   | _ => simp_all [strip, Ty.isValTy, Ty.isFn]
 
+/-- the result of a call: a value of the declared return type (narrowed when the call itself is
+known to be non-`None`), or `IndexError` -/
+theorem call_result_good (inv : Inv key Γ F ρ) {e : Expr} {o : Out} {ret : Ty} (hev : eval ρ e = o)
+    (ho : OutOK Γ.decls o ret) : Good Γ.decls o (strip F (key e) ret) := by
+  rcases ho with rfl | ⟨w, rfl, hw⟩
+  · exact Good.index
+  · exact Good.val (strip_hasTy hw (fun hk => fact_ne_none inv hk hev))
+
 theorem methodCall_good {i : Expr} {n : Text} {args : List Expr} {τ : Ty} (inv : Inv key Γ F ρ)
     (ihi : ∀ ti, infer key Γ F i = .ok ti → Good Γ.decls (eval ρ i) ti)
-    (ihargs : inferArgs key Γ F args = .ok () → ArgsSafe (evalArgs ρ args))
+    (ihargs : ∀ ts, inferArgs key Γ F args = .ok ts → ArgsGood Γ.decls ts (evalArgs ρ args))
     (h : infer key Γ F (.methodCall i n args) = .ok τ) : Good Γ.decls (eval ρ (.methodCall i n args)) τ := by
   simp only [infer] at h
   cases ha : inferArgs key Γ F args with
@@ -553,46 +543,34 @@ theorem methodCall_good {i : Expr} {n : Text} {args : List Expr} {τ : Ty} (inv 
     | crash s => simp [hm] at h
     | err es => simp [hm] at h
     | ok mt => cases mt <;> simp [hm] at h
-  | ok u =>
-    have gargs := ihargs ha
+  | ok ts =>
+    have gargs := ihargs ts ha
     simp only [ha] at h
     cases hi : infer key Γ F i with
     | err es => simp [hi, memberRes] at h
     | crash s => simp [hi, memberRes] at h
     | ok ti =>
-      have g := ihi ti hi
       rw [hi] at h
-      -- the fact about the call itself
-      have hfact : ∀ v, eval ρ (.methodCall i n args) = .val v → key (.methodCall i n args) ∈ F → v ≠ .none :=
-        fun v hv hk => fact_ne_none inv hk hv
-      cases he : eval ρ i with
-      | noneDeref => exact absurd he g.1
-      | typeError => exact ⟨by simp [eval, he], by simp [eval, he]⟩
-      | indexError => exact ⟨by simp [eval, he], by simp [eval, he]⟩
-      | otherError => exact ⟨by simp [eval, he], by simp [eval, he]⟩
-      | val v =>
-        have ag := g.2 v he
-        cases ti with
+      rcases ihi ti hi with he | ⟨v, he, hv⟩
+      · have : eval ρ (.methodCall i n args) = .indexError := by simp [eval, he]
+        rw [this]; exact Good.index
+      · cases ti with
         | our c =>
-          have hv : HasTy Γ.decls v (.our c) := by
-            rcases ag with ag | ag
-            · simp [Ty.isLoose] at ag
-            · exact ag
           have hvn : v ≠ .none := hv.our_ne_none
-          simp only [memberRes] at h
+          simp only [memberRes, methodParams] at h
           cases hc : Γ.decls.findOur c with
           | none => simp [hc] at h
           | some d =>
             cases d with
             | enum _ => simp [hc] at h
-            | cprim _ => simp [hc] at h
+            | cprim _ _ _ => simp [hc] at h
             | cls cd =>
               simp only [hc] at h
               cases hp : assoc n cd.props with
               | some τ0 =>
                 -- a property is not a method
                 simp only [hp] at h
-                have hnf := isValTy_strip_not_fn (F := F) (k := key (.member i n)) (inv.wf c cd n τ0 hc hp)
+                have hnf := isValTy_strip_not_fn (F := F) (k := key (.member i n)) (inv.wf.props c cd n τ0 hc hp)
                 cases hs : strip F (key (.member i n)) τ0 <;> simp [hs] at h
                 simp [hs, Ty.isFn] at hnf
               | none =>
@@ -600,32 +578,32 @@ theorem methodCall_good {i : Expr} {n : Text} {args : List Expr} {τ : Ty} (inv 
                 cases hm : assoc n cd.methods with
                 | none => simp [hm] at h
                 | some ret =>
-                  simp only [hm, retTy, Res.ok.injEq] at h
-                  subst h
-                  -- evaluation: receiver, method, arguments
-                  obtain ⟨oid, dcls, fields, rfl, _, _⟩ := inst_of_class hv hc
-                  cases hmeth : ρ.meths (.inst oid dcls fields) n with
-                  | none => exact ⟨by simp [eval, he, hmeth], by simp [eval, he, hmeth]⟩
-                  | some f =>
+                  simp only [hm] at h
+                  cases hps : assoc n cd.mparams with
+                  | none => simp [hps] at h
+                  | some ps =>
+                    simp only [hps] at h
+                    have hchk : checkArgs Γ.decls ps ts = [] ∧ τ = strip F (key (.methodCall i n args)) ret := by
+                      split at h
+                      · cases h
+                      · rename_i hne
+                        simp only [retTy, Res.ok.injEq] at h
+                        exact ⟨by simpa using hne, h.symm⟩
+                    obtain ⟨hchk, rfl⟩ := hchk
+                    -- evaluation: receiver, method, arguments
+                    obtain ⟨g, hg, hcall⟩ := inv.calls.meths v c cd n ret ps hv hc hm hps
+                    obtain ⟨oid, dcls, fields, rfl, _, _⟩ := inst_of_class hv hc
                     cases hargs : evalArgs ρ args with
                     | err o =>
-                      simp only [hargs, ArgsSafe] at gargs
-                      have : eval ρ (.methodCall i n args) = o := by simp [eval, he, hmeth, hargs]
-                      refine ⟨by rw [this]; exact gargs, ?_⟩
-                      intro w hw
-                      rw [this] at hw
-                      subst hw
-                      -- an argument "error" that is a value cannot happen: `evalArgs` only reports non-values
-                      exact absurd hargs (by
-                        intro hcontra
-                        have := evalArgs_err_not_val ρ args _ hcontra
-                        exact this _ rfl)
+                      rw [hargs] at gargs
+                      have hev : eval ρ (.methodCall i n args) = o := by simp [eval, he, hg, hargs]
+                      rw [hev, show o = .indexError from gargs]
+                      exact Good.index
                     | ok vs =>
-                      have hcall : eval ρ (.methodCall i n args) = f vs := by simp [eval, he, hmeth, hargs]
-                      refine ⟨by rw [hcall]; exact inv.safe.meths _ n f vs hmeth, ?_⟩
-                      intro w hw
-                      have hty := inv.calls.meths _ c cd n ret f vs w hv hc hm hmeth (by rw [← hcall]; exact hw)
-                      exact strip_agrees (Or.inr hty) (fun hk => hfact w hw hk)
+                      rw [hargs] at gargs
+                      have hev : eval ρ (.methodCall i n args) = g vs := by simp [eval, he, hg, hargs]
+                      rw [hev]
+                      exact call_result_good inv hev (hcall vs (checkArgs_sound inv.wf hchk gargs))
         | enumType en =>
           simp only [memberRes] at h
           cases hc : Γ.decls.findOur en with
@@ -637,7 +615,7 @@ theorem methodCall_good {i : Expr} {n : Text} {args : List Expr} {τ : Ty} (inv 
               by_cases hcont : n ∈ lits
               · simp [hcont] at h
               · simp [hcont] at h
-            | cprim _ => simp [hc] at h
+            | cprim _ _ _ => simp [hc] at h
             | cls cd => simp [hc] at h
         | prim _ => simp [memberRes] at h
         | verif _ _ => simp [memberRes] at h
@@ -647,13 +625,13 @@ theorem methodCall_good {i : Expr} {n : Text} {args : List Expr} {τ : Ty} (inv 
         | set _ => simp [memberRes] at h
         | opt _ => simp [memberRes] at h
 
-theorem args_out_good {args : List Expr} {o : Out} {D : Decls} {τ : Ty} (hs : ArgsSafe (evalArgs ρ args))
-    (h : evalArgs ρ args = .err o) : Good D o τ := by
-  rw [h] at hs
-  exact ⟨hs, fun v hv => absurd hv (evalArgs_err_not_val ρ args o h v)⟩
+theorem HasTy.opt_fn_none {D : Decls} {v : Val} {τ : Ty} (h : HasTy D v (.opt τ)) (hfn : τ.isFn = true) : v = .none := by
+  cases h with
+  | optNone _ => rfl
+  | optSome h' => rw [h'.not_fn] at hfn; cases hfn
 
-theorem funCall_good {n : Text} {args : List Expr} {τ : Ty} (inv : Inv key Γ F ρ)
-    (ihargs : inferArgs key Γ F args = .ok () → ArgsSafe (evalArgs ρ args))
+theorem funCall_good {n : Text} {args : List Expr} {τ : Ty} (inv : Inv key Γ F ρ) (hback : Γ.backend = true)
+    (ihargs : ∀ ts, inferArgs key Γ F args = .ok ts → ArgsGood Γ.decls ts (evalArgs ρ args))
     (h : infer key Γ F (.funCall n args) = .ok τ) : Good Γ.decls (eval ρ (.funCall n args)) τ := by
   simp only [infer] at h
   cases hn : inferName key Γ F n with
@@ -662,85 +640,106 @@ theorem funCall_good {n : Text} {args : List Expr} {τ : Ty} (inv : Inv key Γ F
   | ok tf =>
     cases ha : inferArgs key Γ F args with
     | crash s => simp [hn, ha] at h
-    | err ea => cases tf <;> simp [hn, ha] at h
-    | ok u =>
-      have gargs := ihargs ha
+    | err ea => cases tf <;> simp [hn, ha, errsOf] at h
+    | ok ts =>
+      have gargs := ihargs ts ha
       simp only [hn, ha] at h
       unfold inferName at hn
       cases hf : Γ.find n with
       | none => simp [hf] at hn
       | some τ0 =>
         simp only [hf, Res.ok.injEq] at hn
-        cases hl : lookup n ρ.vars with
-        | some w =>
-          -- a variable of that name: values are not callable
-          cases hargs : evalArgs ρ args with
-          | ok vs => exact ⟨by simp [eval, hl, hargs], by simp [eval, hl, hargs]⟩
-          | err o =>
-            have : eval ρ (.funCall n args) = o := by simp [eval, hl, hargs]
-            rw [this]; exact args_out_good gargs hargs
-        | none =>
-          rcases inv.conf n τ0 hf with hfn | ⟨v, hv, _⟩
-          · rw [strip_isFn hfn] at hn
-            subst hn
-            have hfact : ∀ v, eval ρ (.funCall n args) = .val v → key (.funCall n args) ∈ F → v ≠ .none :=
-              fun v hv hk => fact_ne_none inv hk hv
-            cases τ0 with
-            | verif m ret =>
-              simp only [retTy, Res.ok.injEq] at h
-              subst h
-              have himpl := inv.calls.impl n m ret hf
-              cases hfun : ρ.funs n with
-              | none => simp [hfun] at himpl
-              | some f =>
-                cases hargs : evalArgs ρ args with
-                | err o =>
-                  have : eval ρ (.funCall n args) = o := by simp [eval, hl, hfun, hargs]
-                  rw [this]; exact args_out_good gargs hargs
-                | ok vs =>
-                  have hcall : eval ρ (.funCall n args) = f vs := by simp [eval, hl, hfun, hargs]
-                  refine ⟨by rw [hcall]; exact inv.safe.funs n f vs hfun, ?_⟩
-                  intro w hw
-                  have hty := inv.calls.funs n m ret f vs w (Or.inl hf) hfun (by rw [← hcall]; exact hw)
-                  exact strip_agrees (Or.inr hty) (fun hk => hfact w hw hk)
-            | builtin m ret =>
-              simp only [retTy, Res.ok.injEq] at h
-              subst h
-              obtain ⟨p, rfl⟩ := inv.calls.builtin n m ret hf
-              refine good_loose ?_ (by simp [strip, Ty.isLoose])
-              cases hfun : ρ.funs n with
-              | some f =>
-                cases hargs : evalArgs ρ args with
-                | err o =>
-                  have : eval ρ (.funCall n args) = o := by simp [eval, hl, hfun, hargs]
-                  rw [this]; exact (args_out_good (D := Γ.decls) (τ := .bool) gargs hargs).1
-                | ok vs =>
-                  have hcall : eval ρ (.funCall n args) = f vs := by simp [eval, hl, hfun, hargs]
-                  rw [hcall]; exact inv.safe.funs n f vs hfun
-              | none =>
-                by_cases hlen : n = [108, 101, 110]
-                · subst hlen
-                  cases hargs : evalArgs ρ args with
-                  | err o =>
-                    have : eval ρ (.funCall [108, 101, 110] args) = o := by simp [eval, hl, hfun, hargs]
-                    rw [this]; exact (args_out_good (D := Γ.decls) (τ := .bool) gargs hargs).1
-                  | ok vs =>
-                    cases vs with
-                    | nil => simp [eval, hl, hfun, hargs]
-                    | cons a r =>
-                      cases r with
-                      | nil => simpa [eval, hl, hfun, hargs] using lenVal_ne a
-                      | cons _ _ => simp [eval, hl, hfun, hargs]
-                · simp [eval, hl, hfun, hlen]
-            | method _ _ => simp at h
-            | _ => simp [Ty.isFn] at hfn
-          · rw [hl] at hv; cases hv
+        -- the declared type of the name is the function type itself
+        have hτ0 : τ0 = tf ∧ tf.isFn = true := by
+          have htf : tf.isFn = true := by cases tf <;> simp_all [Ty.isFn]
+          cases τ0 with
+          | opt σ =>
+            simp only [strip] at hn
+            split at hn
+            · -- narrowed from `Optional[function]`: such a name would be a variable whose value is `None`
+              rename_i hin
+              subst hn
+              rcases inv.conf n _ hf with hfn | ⟨v, hv, hty⟩
+              · simp [Ty.isFn] at hfn
+              · have hev : eval ρ (.name n) = .val v := by simp [eval, hv]
+                have := fact_ne_none inv (by simpa using hin) hev
+                exact absurd (hty.opt_fn_none htf) this
+            · subst hn; simp [Ty.isFn] at htf
+          | _ => simp only [strip] at hn; exact ⟨hn, htf⟩
+        obtain ⟨rfl, hfn⟩ := hτ0
+        have hl : lookup n ρ.vars = none := inv.calls.notVar n _ hf hfn
+        cases τ0 with
+        | verif m ret =>
+          simp only at h
+          cases hfd : Γ.decls.findFn m with
+          | none => simp [hfd] at h
+          | some f =>
+            simp only [hfd] at h
+            have hchk : checkArgs Γ.decls f.params ts = [] ∧ τ = strip F (key (.funCall n args)) ret := by
+              split at h
+              · cases h
+              · rename_i hne
+                simp only [retTy, Res.ok.injEq] at h
+                exact ⟨by simpa using hne, h.symm⟩
+            obtain ⟨hchk, rfl⟩ := hchk
+            obtain ⟨g, hg, hcall⟩ := inv.calls.funs n m ret f hf hfd
+            cases hargs : evalArgs ρ args with
+            | err o =>
+              rw [hargs] at gargs
+              have hev : eval ρ (.funCall n args) = o := by simp [eval, hl, hg, hargs]
+              rw [hev, show o = .indexError from gargs]
+              exact Good.index
+            | ok vs =>
+              rw [hargs] at gargs
+              have hev : eval ρ (.funCall n args) = g vs := by simp [eval, hl, hg, hargs]
+              rw [hev]
+              exact call_result_good inv hev (hcall vs (checkArgs_sound inv.wf hchk gargs))
+        | builtin m ret =>
+          obtain ⟨rfl, rfl, rfl, hfun⟩ := inv.calls.builtin n m ret hf
+          simp only [ne_eq, not_true_eq_false, if_false] at h
+          -- `len` of exactly one argument, which has a length
+          cases ts with
+          | nil => simp at h
+          | cons t rest =>
+            cases rest with
+            | cons _ _ => simp at h
+            | nil =>
+              simp only [hback, Bool.true_and] at h
+              have hlen : lenable Γ.decls t = true ∧ τ = .prim .length := by
+                split at h
+                · cases h
+                · split at h
+                  · cases h
+                  · rename_i hl
+                    simp only [retTy, strip, Res.ok.injEq] at h
+                    exact ⟨by simpa using hl, h.symm⟩
+              obtain ⟨hlen, rfl⟩ := hlen
+              have hl' : lookup [108, 101, 110] ρ.vars = none := hl
+              have hfun' : ρ.funs [108, 101, 110] = none := hfun
+              cases hargs : evalArgs ρ args with
+              | err o =>
+                rw [hargs] at gargs
+                have hev : eval ρ (.funCall lenName args) = o := by simp [eval, hl', hfun', hargs, lenName]
+                rw [hev, show o = .indexError from gargs]
+                exact Good.index
+              | ok vs =>
+                rw [hargs] at gargs
+                cases gargs with
+                | cons hv hrest =>
+                  cases hrest
+                  obtain ⟨k, hk⟩ := lenVal_typed hv hlen
+                  have hev : eval ρ (.funCall lenName args) = .val (.int k) := by
+                    simp [eval, hl', hfun', hargs, lenName, hk]
+                  rw [hev]
+                  exact Good.val (HasTy.length k)
+        | method _ _ => simp [errsOf] at h
+        | _ => simp [Ty.isFn] at hfn
 
 /-- what the evaluation of a generator yields when the inferrer bound `x : τx` -/
 def GenGood (D : Decls) (x : Text) (τx : Ty) : GenRes → Prop
   | .items z items => z = x ∧ ∀ item, item ∈ items → HasTy D item τx
   | .range z _ _ => z = x ∧ (τx = .prim .int ∨ τx = .prim .length)
-  | .err o => o ≠ .noneDeref
+  | .err o => o = .indexError
 
 theorem forEach_good {y x : Text} {it : Expr} {τx : Ty}
     (ihit : ∀ ti, infer key Γ F it = .ok ti → Good Γ.decls (eval ρ it) ti)
@@ -761,14 +760,20 @@ theorem forEach_good {y x : Text} {it : Expr} {τx : Ty}
       obtain ⟨rfl, rfl⟩ := h
       refine ⟨by simpa using hfind, ?_⟩
       simp only [evalGen]
-      cases he : eval ρ it with
-      | val iv =>
-        rcases g.2 iv he with hl | hty
-        · simp [Ty.isLoose] at hl
-        · cases hty with
-          | list hall => simpa [iterItems, GenGood] using hall
-      | noneDeref => exact absurd he g.1
-      | _ => simp [GenGood]
+      rcases g with he | ⟨iv, he, hty⟩
+      · rw [he]; rfl
+      · rw [he]
+        obtain ⟨l, rfl, hall⟩ := hty.inv_list
+        simpa [iterItems, GenGood] using hall
+
+theorem intLike_rangeArg {D : Decls} {v : Val} {τ : Ty} (h : HasTy D v τ) (hint : τ.isIntLike = true) :
+    ∃ k, rangeArg v = some k := by
+  cases τ with
+  | prim p =>
+    cases p <;> simp [Ty.isIntLike] at hint
+    · obtain ⟨k, rfl⟩ := h.inv_int; exact ⟨k, rfl⟩
+    · obtain ⟨k, rfl⟩ := h.inv_length; exact ⟨k, rfl⟩
+  | _ => simp [Ty.isIntLike] at hint
 
 theorem forRange_good {y x : Text} {a b : Expr} {τx : Ty}
     (iha : ∀ ti, infer key Γ F a = .ok ti → Good Γ.decls (eval ρ a) ti)
@@ -787,66 +792,85 @@ theorem forRange_good {y x : Text} {a b : Expr} {τx : Ty}
       | err es => simp [ha, hb] at h
       | crash s => simp [ha, hb] at h
       | ok tb =>
-        have ga := (iha ta ha).1
-        have gb := (ihb tb hb).1
         simp only [ha, hb] at h
-        have hx : y = x ∧ (τx = .prim .int ∨ τx = .prim .length) := by
-          repeat' split at h
-          all_goals first | (simp at h; done) | (simp at h; exact ⟨h.1, by rw [← h.2]; simp⟩)
-        obtain ⟨rfl, hτ⟩ := hx
+        have hx : y = x ∧ (τx = .prim .int ∨ τx = .prim .length) ∧ ta.isIntLike = true ∧ tb.isIntLike = true := by
+          by_cases h1 : ((if ta.isOpt then [Err.startOptional] else []) ++ (if tb.isOpt then [Err.endOptional] else [])) ≠ []
+          · simp [h1] at h
+          · by_cases h2 : ta.isIntLike = true
+            · by_cases h3 : tb.isIntLike = true
+              · simp [h1, h2, h3] at h
+                refine ⟨h.1, ?_, h2, h3⟩
+                rw [← h.2]
+                split <;> simp
+              · simp [h1, h2, h3] at h
+            · simp [h1, h2] at h
+        obtain ⟨rfl, hτ, hia, hib⟩ := hx
         refine ⟨by simpa using hfind, ?_⟩
         simp only [evalGen]
-        cases hea : eval ρ a with
-        | val av =>
-          cases heb : eval ρ b with
-          | val bv =>
-            simp only
-            cases rangeArg av <;> cases rangeArg bv <;> simp [GenGood, hτ]
-          | noneDeref => exact absurd heb gb
-          | _ => simp [GenGood]
-        | noneDeref => exact absurd hea ga
-        | _ => simp [GenGood]
+        rcases iha ta ha with hea | ⟨av, hea, hav⟩
+        · rw [hea]; rfl
+        · rcases ihb tb hb with heb | ⟨bv, heb, hbv⟩
+          · rw [hea, heb]; rfl
+          · obtain ⟨s, hs⟩ := intLike_rangeArg hav hia
+            obtain ⟨e, he⟩ := intLike_rangeArg hbv hib
+            rw [hea, heb]
+            simp only [hs, he]
+            exact ⟨rfl, hτ⟩
 
-theorem any_good {g : Gen} {c : Expr} {x : Text} {τx τ : Ty} (inv : Inv key Γ F ρ)
-    (hx : Γ.find x = none) (hgen : GenGood Γ.decls x τx (evalGen ρ g))
-    (hbody : ∀ item, HasTy Γ.decls item τx → eval (ρ.bind x item) c ≠ .noneDeref) (hτ : τ = .bool) :
-    Good Γ.decls (eval ρ (.any g c)) τ := by
-  subst hτ
-  refine good_loose ?_ (by simp [Ty.bool, Ty.isLoose])
+theorem any_good {g : Gen} {c : Expr} {x : Text} {τx : Ty}
+    (hgen : GenGood Γ.decls x τx (evalGen ρ g))
+    (hbody : ∀ item, HasTy Γ.decls item τx → Good Γ.decls (eval (ρ.bind x item) c) (.prim .bool)) :
+    Good Γ.decls (eval ρ (.any g c)) .bool := by
+  have hval : ∀ item, HasTy Γ.decls item τx →
+      eval (ρ.bind x item) c = .indexError ∨ ∃ v, eval (ρ.bind x item) c = .val v := by
+    intro item hi
+    rcases hbody item hi with h | ⟨v, h, _⟩
+    · exact Or.inl h
+    · exact Or.inr ⟨v, h⟩
   simp only [eval]
   cases hg : evalGen ρ g with
   | items z items =>
     simp only [hg, GenGood] at hgen
     obtain ⟨rfl, hall⟩ := hgen
-    exact quantLoop_ne _ _ _ items (fun item hi => hbody item (hall item hi))
+    exact Good.of_boolOrIndex (quantLoop_typed _ _ _ items (fun item hi => hval item (hall item hi)))
   | range z s n =>
     simp only [hg, GenGood] at hgen
     obtain ⟨rfl, hτ⟩ := hgen
-    refine rangeLoop_ne _ _ _ (fun i => hbody (.int i) ?_) n s
+    refine Good.of_boolOrIndex (rangeLoop_typed _ _ _ (fun i => hval (.int i) ?_) n s)
     rcases hτ with rfl | rfl
     · exact HasTy.int i
     · exact HasTy.length i
-  | err o => simpa [hg, GenGood] using hgen
+  | err o =>
+    simp only [hg, GenGood] at hgen
+    subst hgen
+    exact Good.index
 
-theorem all_good {g : Gen} {c : Expr} {x : Text} {τx τ : Ty} (inv : Inv key Γ F ρ)
-    (hx : Γ.find x = none) (hgen : GenGood Γ.decls x τx (evalGen ρ g))
-    (hbody : ∀ item, HasTy Γ.decls item τx → eval (ρ.bind x item) c ≠ .noneDeref) (hτ : τ = .bool) :
-    Good Γ.decls (eval ρ (.all g c)) τ := by
-  subst hτ
-  refine good_loose ?_ (by simp [Ty.bool, Ty.isLoose])
+theorem all_good {g : Gen} {c : Expr} {x : Text} {τx : Ty}
+    (hgen : GenGood Γ.decls x τx (evalGen ρ g))
+    (hbody : ∀ item, HasTy Γ.decls item τx → Good Γ.decls (eval (ρ.bind x item) c) (.prim .bool)) :
+    Good Γ.decls (eval ρ (.all g c)) .bool := by
+  have hval : ∀ item, HasTy Γ.decls item τx →
+      eval (ρ.bind x item) c = .indexError ∨ ∃ v, eval (ρ.bind x item) c = .val v := by
+    intro item hi
+    rcases hbody item hi with h | ⟨v, h, _⟩
+    · exact Or.inl h
+    · exact Or.inr ⟨v, h⟩
   simp only [eval]
   cases hg : evalGen ρ g with
   | items z items =>
     simp only [hg, GenGood] at hgen
     obtain ⟨rfl, hall⟩ := hgen
-    exact quantLoop_ne _ _ _ items (fun item hi => hbody item (hall item hi))
+    exact Good.of_boolOrIndex (quantLoop_typed _ _ _ items (fun item hi => hval item (hall item hi)))
   | range z s n =>
     simp only [hg, GenGood] at hgen
     obtain ⟨rfl, hτ⟩ := hgen
-    refine rangeLoop_ne _ _ _ (fun i => hbody (.int i) ?_) n s
+    refine Good.of_boolOrIndex (rangeLoop_typed _ _ _ (fun i => hval (.int i) ?_) n s)
     rcases hτ with rfl | rfl
     · exact HasTy.int i
     · exact HasTy.length i
-  | err o => simpa [hg, GenGood] using hgen
+  | err o =>
+    simp only [hg, GenGood] at hgen
+    subst hgen
+    exact Good.index
 
 end AasVerif.Expr
